@@ -466,6 +466,7 @@ func opIndex(r *hx.Run, layers []string, ecos []eco) (string, []*claircore.Index
 			}
 		}
 		countResolver(r, layers, final, reports)
+		checkRecords(r, final, op)
 	}
 	return out, reports
 }
@@ -488,6 +489,29 @@ func countResolver(r *hx.Run, layers []string, final *claircore.IndexReport, rep
 		}
 		for h, f := range rep.Files {
 			files[nameOf(h)] = f
+		}
+	}
+	// the statement of the resolver on this input: a package goes exactly when a file of kind whiteout, stored
+	// under a layer after the newest layer of its environments, covers its Filepath
+	for id, es := range merged {
+		p := pk[id]
+		if p == nil || len(es) == 0 {
+			continue
+		}
+		newest := 0
+		for _, e := range es {
+			if i := idx[nameOf(e.IntroducedIn.String())]; i > newest {
+				newest = i
+			}
+		}
+		gone := false
+		for h, f := range files {
+			if f.Kind == claircore.FileKindWhiteout && idx[h] > newest && whiteout.FileIsDeletedForVerif(p.Filepath, f.Path) {
+				gone = true
+			}
+		}
+		if _, kept := final.Packages[id]; kept == gone {
+			r.Fail("", fmt.Sprintf("resolver: package %s (file %q, newest environment layer %d) kept=%v, but a later whiteout covering it exists=%v; layers=%v files=%v", id, p.Filepath, newest, kept, gone, layers, files))
 		}
 	}
 	for id, es := range merged {
@@ -536,6 +560,52 @@ func countResolver(r *hx.Run, layers []string, final *claircore.IndexReport, rep
 				r.Count("branch:resolver:covering-whiteout-after-some-environment")
 			}
 		}
+	}
+}
+
+// checkRecords: theorems index_records_resolve / index_records_complete on the real IndexRecords — exactly
+// one record per (package, environment, repository id), one without repository for an environment that names
+// none, each with the report's own Distribution / Repository objects.
+func checkRecords(r *hx.Run, ir *claircore.IndexReport, op string) {
+	want := map[string]int{}
+	for id, p := range ir.Packages {
+		for _, e := range ir.Environments[p.ID] {
+			d := "nil"
+			if x, ok := ir.Distributions[e.DistributionID]; ok {
+				d = x.ID
+			}
+			if len(e.RepositoryIDs) == 0 {
+				want[id+"/"+d+"/nil"]++
+			}
+			for _, rid := range e.RepositoryIDs {
+				rp := "nil"
+				if x, ok := ir.Repositories[rid]; ok {
+					rp = x.ID
+				}
+				want[id+"/"+d+"/"+rp]++
+			}
+		}
+	}
+	got := map[string]int{}
+	for _, rec := range ir.IndexRecords() {
+		d, rp := "nil", "nil"
+		if rec.Distribution != nil {
+			d = rec.Distribution.ID
+			if ir.Distributions[d] != rec.Distribution {
+				r.Fail("", "IndexRecords: a record's distribution is not the report's object; op="+op)
+			}
+		}
+		if rec.Repository != nil {
+			rp = rec.Repository.ID
+		}
+		if rec.Package == nil || ir.Packages[rec.Package.ID] != rec.Package {
+			r.Fail("", "IndexRecords: a record's package is not a package of the report; op="+op)
+			continue
+		}
+		got[rec.Package.ID+"/"+d+"/"+rp]++
+	}
+	if fmt.Sprint(want) != fmt.Sprint(got) {
+		r.Fail("", fmt.Sprintf("IndexRecords: records (package/distribution/repository) %v, the environments of the report call for %v; op=%s", got, want, op))
 	}
 }
 
@@ -685,12 +755,21 @@ func checkNewestDB(r *hx.Run, arts []mLayer, ir *claircore.IndexReport) {
 // checkRhelLast: statement of theorem rhel_last_layer_wins.
 func checkRhelLast(r *hx.Run, arts []mLayer, ir *claircore.IndexReport) {
 	want := map[string]bool{}
+	wantDB := map[string]bool{}
 	for i := len(arts) - 1; i >= 0; i-- {
 		if len(arts[i].Pkgs) > 0 {
 			for _, p := range arts[i].Pkgs {
 				want[p.ID] = true
+				wantDB[p.ID+"\x00"+p.DB] = true
 			}
 			break
+		}
+	}
+	for id, es := range ir.Environments {
+		for _, e := range es {
+			if want[id] && !wantDB[id+"\x00"+e.PackageDB] {
+				r.Fail("", fmt.Sprintf("rhel-last-layer: package %s reported in database %s, where the last package-bearing layer does not hold it; arts=%s", id, e.PackageDB, encArts(arts)))
+			}
 		}
 	}
 	for id := range want {
